@@ -11,5 +11,5 @@ for id in $ids; do
   nd=$(echo "$out" | grep -c "^MODEL-DIVERGENCE")
   if [ $rc -ne 0 ]; then bad=1; echo "$id rc=$rc  <-- FALSE ALARM / TOOL ERROR"; echo "$out" | grep -E "^VIOLATION|^  rule=|TOOL-ERROR" | cut -c1-300 | head -6; else echo "$id ok (divergence lines: $nd)"; fi
 done
-cd /repo && git checkout -- . && git status --short | head -3
+cd /repo && git checkout -- . && git clean -fdq -- cadence cadence-macros && git status --short | head -3
 exit $bad
